@@ -423,6 +423,29 @@ func c15Fold(ctx *core.Ctx, text string, e *expr.Expression, variants bool) {
 			ctx.Violate("c15:override-count:"+op.String(), "overriding %v on %q: replacement called %d times for %d nodes; output %q vs %q", op, text, altCalls, present[op], out2, out)
 			return
 		}
+		// a function may return anything, the empty string included ("drop this clause"): the fold
+		// still visits every node and still calls every other node's function
+		if present[op] > 0 {
+			tr4 := &tracer{}
+			m4 := tr4.fullMap()
+			inner := tr4.fn(op, true)
+			m4[op] = func(l, r string) (string, error) { _, _ = inner(l, r); return "", nil }
+			var err4 error
+			if !ctx.Call("Base.Render(blank)", func() { _, err4 = driver.Base{RenderFNs: m4}.Render(e) }) {
+				return
+			}
+			ctx.Count("blank_cases", 1)
+			if err4 != nil || len(tr4.calls) != len(tr.calls) {
+				ctx.Violate("c15:blank-result-changes-fold:"+op.String(), "with the function of %v returning the empty string, Render(%q) makes %d calls instead of %d (err %v)", op, text, len(tr4.calls), len(tr.calls), err4)
+				return
+			}
+			for i, c := range tr4.calls {
+				if c.op != tr.calls[i].op {
+					ctx.Violate("c15:blank-result-changes-fold:"+op.String(), "with the function of %v returning the empty string, call %d of Render(%q) is %v instead of %v", op, i, text, c.op, tr.calls[i].op)
+					return
+				}
+			}
+		}
 		// removal: a missing function for an operator of the tree is an error and no partial text
 		tr3 := &tracer{}
 		m3 := tr3.fullMap()
@@ -457,7 +480,7 @@ func (c15) Finish(res *core.Result, cov map[string]any) []string {
 	reasons := []string{}
 	cov["distinct_nontrivial"] = res.NDistinct("nontrivial")
 	cov["exhaustive"] = true
-	cov["rule"] = "depth<=2 trees over the leaf alphabet (exhaustive in the quick tier over 8 leaves; 1:8 sample over 27 leaves in the thorough tier) and random deeper trees (explicit ~/^ amounts including 0 and 1), hand-built and re-typed nodes (EQUALS over a pattern, LIKE over a plain value, …), built with the constructors, parsed, and decoded from their JSON encoding, rendered by driver.Base with a tracing function per operator; the call log is replayed against the tree (one call per expression node, bottom-up, children's results as arguments, bare or in one pair of parentheses). For every operator: its function replaced (other calls must not change) and removed (error and no partial text iff the operator occurs). Queries with ~ or ^ through ToPostgres/ToParameterizedPostgres must fail. Non-trivial = distinct (removed operator, tree) where the operator occurs."
+	cov["rule"] = "depth<=2 trees over the leaf alphabet (exhaustive in the quick tier over 8 leaves; 1:8 sample over 27 leaves in the thorough tier) and random deeper trees (explicit ~/^ amounts including 0 and 1), hand-built and re-typed nodes (EQUALS over a pattern, LIKE over a plain value, …), built with the constructors, parsed, and decoded from their JSON encoding, rendered by driver.Base with a tracing function per operator; the call log is replayed against the tree (one call per expression node, bottom-up, children's results as arguments, bare or in one pair of parentheses). For every operator: its function replaced (other calls must not change), made to return the empty string (the fold must not change) and removed (error and no partial text iff the operator occurs). Queries with ~ or ^ through ToPostgres/ToParameterizedPostgres must fail. Non-trivial = distinct (removed operator, tree) where the operator occurs."
 	floor(res.Counters["folds"] >= 1000, &reasons, "folds %d", res.Counters["folds"])
 	floor(res.Counters["fuzzy_boost_queries"] >= 500, &reasons, "fuzzy/boost queries %d", res.Counters["fuzzy_boost_queries"])
 	for _, op := range allOps {
